@@ -328,7 +328,42 @@ func genPipeline(t *rapid.T, depth int) string {
 	return strings.Join(st, " | ")
 }
 
+// genRecursive: programs whose variables refer to themselves, directly or through each other,
+// from inside a function argument, an object or an operator, over lists that do not shrink
+// with the depth of the recursion ("self-referential variables" of the statement; the engine
+// must stop them with an error however the error travels back through the enclosing stages).
+func genRecursive(t *rapid.T) string {
+	v := rapid.SampledFrom([]string{"X", "Y", "Names"}).Draw(t, "rv")
+	w := rapid.SampledFrom([]string{"Y", "Z", "Other"}).Draw(t, "rw")
+	root := rapid.SampledFrom([]string{"Document1", "Document2", "Document1 | .Nodes", "Document1 | .Individuals", "Document1 | .Families", "Document1 | .Warnings",
+		".Nodes", ".Individuals", ".Families", ".Warnings", ".Individuals | .Name", ".Nodes | .Nodes", "Document1 | .Sources", ".Places"}).Draw(t, "root")
+	ref := v
+	indirect := rapid.IntRange(0, 2).Draw(t, "indirect") == 0
+	if indirect {
+		ref = w
+	}
+	use := rapid.SampledFrom([]string{"Only(%s)", "Only(%s = 1)", "Only(.Pointer = %s)", "First(%s)", "Last(%s)", "Combine(%s, %s)", "NodesWithTagPath(%s)", "{a: %s}", "{a: %s, b: %s}",
+		"%s", "%s | Length", ". = %s", "%s != %s", "Only(%s) | Only(%s)", "MergeDocumentsAndIndividuals(%s, %s)", "Only({a: %s})", "Only(First(%s))"}).Draw(t, "use")
+	use = strings.ReplaceAll(use, "%s", ref)
+	prog := fmt.Sprintf("%s %s %s | %s", v, rapid.SampledFrom([]string{"is", "are"}).Draw(t, "isare"), root, use)
+	if indirect {
+		prog += fmt.Sprintf("; %s is %s", w, rapid.SampledFrom([]string{v, v + " | Length", "Only(" + v + ")", root + " | " + v}).Draw(t, "back"))
+	}
+	switch rapid.IntRange(0, 3).Draw(t, "tail") {
+	case 0:
+		prog += "; " + v
+	case 1:
+		prog += "; " + root + " | " + v
+	case 2:
+		prog += "; .Individuals | .Name | .String" // the variable is never used
+	}
+	return prog
+}
+
 func genProgram(t *rapid.T) string {
+	if rapid.IntRange(0, 9).Draw(t, "recursive") == 0 {
+		return genRecursive(t)
+	}
 	n := rapid.IntRange(1, 3).Draw(t, "statements")
 	var st []string
 	for i := 0; i < n; i++ {
@@ -344,7 +379,7 @@ func genProgram(t *rapid.T) string {
 func TestCheckGrammar(t *testing.T) {
 	reflected = collectAccessors()
 	s := harness.NewSub("grammar-programs",
-		fmt.Sprintf("well-formed programs from the documented grammar (1..3 statements, pipelines of 1..4 stages, nesting depth <= 4): accessors drawn from the %d method and field names reachable by reflection from *Document (so arity-mismatched, mutating and no-result methods are included), the built-in functions with 0..3 arbitrary arguments, objects, variables incl. self-referential and undefined ones, all six operators, hostile constants; on the empty, tiny and family documents and with two documents; non-trivial = the program parses", len(reflected)))
+		fmt.Sprintf("well-formed programs from the documented grammar (1..3 statements, pipelines of 1..4 stages, nesting depth <= 4): accessors drawn from the %d method and field names reachable by reflection from *Document (so arity-mismatched, mutating and no-result methods are included), the built-in functions with 0..3 arbitrary arguments, objects, variables incl. self-referential and undefined ones (a tenth of the programs are built around a variable that refers to itself, directly or through another one, from inside a function argument, object or operator over a list rooted at the document), all six operators, hostile constants; on the empty, tiny and family documents and with two documents; non-trivial = the program parses", len(reflected)))
 	s.Rapid(t, harness.Share(harness.Pick(300000, 4000000)), 150, func(rt *rapid.T) {
 		c := queryCase{Query: genProgram(rt), Doc: rapid.SampledFrom([]string{"empty", "tiny", "family", "family", "two"}).Draw(rt, "doc")}
 		runOne(s, c, true)
